@@ -566,6 +566,27 @@ theorem short_block_read_in_its_own_context :
         (fun r => (r.core.valueOf "list-format".toList, r.tasks.map (fun c => c.args.map Arg.value))) =
       some (.s "a".toList, [[.b true, .b true], [.b false]]) := by decide
 
+/-- COMBINED SHORT BLOCKS WITH A VALUE FLAG LAST (real core table).  `-epT 5` is `-e -p -T 5` and `-ewpT 5` is
+    `-e -w -p -T 5` — before the tasks and inside a task's argument list, all four with the same effect; the letters are
+    handled in the order written (with the order of the inserted pieces reversed, `-T` would swallow `-p`).
+    NOT PROVED in general: "a block of Boolean letters followed by one value-taking letter is processed like its letters
+    in order" for arbitrary blocks and contexts — `core_bool_block_placement_partial2` covers all-Boolean blocks; the
+    mixed case is validated by the BLOCK family of `harness/props/c18.py` and by these instances. -/
+theorem short_block_with_value_flag_last :
+    effect (programParse coreCtx c18Reg (argvOf ["-epT", "5", "t1", "--flag"])) =
+      effect (programParse coreCtx c18Reg (argvOf ["-e", "-p", "-T", "5", "t1", "--flag"])) ∧
+    effect (programParse coreCtx c18Reg (argvOf ["t1", "-epT", "5", "--flag"])) =
+      effect (programParse coreCtx c18Reg (argvOf ["t1", "-e", "-p", "-T", "5", "--flag"])) ∧
+    effect (programParse coreCtx c18Reg (argvOf ["t1", "-epT", "5", "--flag"])) =
+      effect (programParse coreCtx c18Reg (argvOf ["-epT", "5", "t1", "--flag"])) ∧
+    effect (programParse coreCtx c18Reg (argvOf ["t1", "--flag", "-ewpT", "5"])) =
+      effect (programParse coreCtx c18Reg (argvOf ["-e", "-w", "-p", "-T", "5", "t1", "--flag"])) ∧
+    (effect (programParse coreCtx c18Reg (argvOf ["t1", "--flag", "-ewpT", "5"]))).map
+        (fun e => (e.1.echo, e.1.warn, e.1.pty, e.1.timeout)) = some (true, true, true, .i 5) ∧
+    -- a task's own letters mixed with core letters, the task's value flag last: `t1 -fen zed` = `t1 -f -e -n zed`
+    effect (programParse coreCtx c18Reg (argvOf ["t1", "-fen", "zed"])) =
+      effect (programParse coreCtx c18Reg (argvOf ["-e", "t1", "-f", "-n", "zed"])) := by decide
+
 /-- A VALUE THAT LOOKS LIKE THE SENTINEL IS A VALUE.  `--name=--`, `-n--`, core `--hide=--` (before or inside the task) store
     "--" verbatim; the later task is intact; the remainder is what follows the first BARE `--` token of the command line. -/
 theorem dash_value_verbatim :
